@@ -219,6 +219,10 @@ def _run_loop_scenario(chk, pid, S, fi, host, calls, scen):
             ok = seq == ["update", "run", "update"]
             chk.ob("C09.R3" if pid == "C09" else "C08.R1", ok, BACKTEST, host, "loop-sequence", "each date is processed update -> run -> update (the second update records the trades of the date)",
                    where=fi.where, expected="update, run, update", found=", ".join(seq), sample={"sequence": seq})
+            before = [e for e in calls if in_loop(e) and e.seq < loop_updates[0].seq and e.loops[-1] is loop]
+            chk.ob("C08.R1", not before, BACKTEST, host, "date-begins-with-update", "a date begins with the update to that date: nothing is done to the strategy while its clock still shows the "
+                   "previous date (cash moved then is recorded on no date: the roll to the new date resets the flow and fee accumulators)", where=(before[0].where if before else fi.where),
+                   expected="update(dt) first in the loop body", found=", ".join(e.name for e in before))
             if len(loop_updates) >= 2 and pid in ("C08", "C01", "C02", "C07", "C03"):
                 second = loop_updates[-1]
                 extra = [l for l in plain(second.guard) if not sym.lit_holds(sym.sat(tuple(runs[0].guard) + scen), l[0], l[1])]
